@@ -20,23 +20,34 @@ def items(tier):
         ents = ents[::2]
     for p, strat, tags in ents:
         a = alpha_for(p)
-        for g in (QG if tier == "quick" else G12):
-            out.append(mk("C12", p, "FindIndex", L, a, extra=g, strategy=strat))
-            if tier != "quick":
-                out.append(mk("C12", p, "Match", L, a, extra=g, strategy=strat))
+        if corpus.windows_only(tags, tier) or "wq" in tags:
+            continue
+        if tier == "quick":
+            for g in QG:
+                out.append(mk("C12", p, "FindIndex", L, a, extra=g, strategy=strat))
+            out.append(mk("C12", p, "Match", L, a, extra=QG[3], strategy=strat))
+            continue
+        # thorough: every configuration of the grid at L = 3 (FindIndex), the quick grid for Match / FindAll / submatch,
+        # and L = 4 under the two most different configurations for the deep entries
+        for g in G12:
+            out.append(mk("C12", p, "FindIndex", 3, a, extra=g, strategy=strat))
+        for g in QG:
+            out.append(mk("C12", p, "Match", 3, a, extra=g, strategy=strat))
+            if corpus.deep(tags):
                 out.append(mk("C12", p, "FindAllIndex", 3, a, extra=g, strategy=strat))
                 if "cap" in tags:
                     out.append(mk("C12", p, "FindSubmatchIndex", 3, a, extra=g, strategy=strat))
-        if tier == "quick":
-            out.append(mk("C12", p, "Match", L, a, extra=QG[3], strategy=strat))
+        if corpus.deep(tags):
+            for g in ["dfa=0,pf=0,ascii=0", "states=1,det=10,maxlits=1,minlit=3"]:
+                out.append(mk("C12", p, "FindIndex", 4, a, extra=g, strategy=strat))
     # literal alternations next to assertions: Match and FindIndex under every configuration, with windows
     for p, strat, tags in corpus.entries("thorough", tag="lit"):
         a = alpha_for(p)
         for g in (QG if tier == "quick" else G12):
             for pre, post in corpus.windows(p):
-                out.append(mk("C12", p, "Match", L, a, extra=g, strategy=strat, pre=pre, post=post))
+                out.append(mk("C12", p, "Match", 3, a, extra=g, strategy=strat, pre=pre, post=post))
                 if tier != "quick":
-                    out.append(mk("C12", p, "FindIndex", L, a, extra=g, strategy=strat, pre=pre, post=post))
+                    out.append(mk("C12", p, "FindIndex", 3, a, extra=g, strategy=strat, pre=pre, post=post))
     return out
 
 
